@@ -13,6 +13,8 @@ mod c03;
 mod c04;
 mod c08;
 mod c09;
+mod c13;
+mod c14;
 mod nharness;
 mod c16;
 mod c17;
@@ -220,6 +222,33 @@ fn props() -> Vec<Property> {
             "the grammar clauses (encoding, parsing) are pure functions of their input: sampled structurally through a foreign peer / hook H2, not decided",
         ],
         required_probes: vec!["finishes-before-deadline", "cut-off-at-deadline", "inside-guard-band", "unit-coarser-than-ns", "parse-conformant", "parse-malformed"],
+    },
+    Property {
+        id: "C13",
+        title: "Graceful shutdown loses no accepted call",
+        scenarios: vec![Scenario { name: "N-graceful-shutdown", engine: "N", run: c13::run, quick: 6_000, thorough: 150_000, grid: 0, what: "real serve_with_incoming_shutdown with 0..3 connections and 1..6 unary/streaming/bidi calls (virtual latencies and gaps); the signal fires at a drawn virtual instant or right after the k-th handler entry; a further connection is offered strictly after the signal; clients keep or drop their channels" }],
+        rule: "one run = one placement of the signal relative to the phases of the calls x connections x network fragmentation/stalls; every run non-trivial; distinct = distinct hash of structural tape decisions and ordered network-event kinds",
+        real_vs_stub: RVS_N.to_vec(),
+        assumptions: vec![
+            "accepted = the call's handler was entered (recorded by the handler)",
+            "that connections do close after their last in-flight call is recorded as a probe, not judged (the property does not promise it); liveness is judged as stated: once all connections have closed the serve future resolves (within 300 virtual seconds)",
+        ],
+        required_probes: vec!["signal-before-any-handler-entry", "signal-with-calls-in-flight-and-calls-not-yet-accepted", "accepted-call-judged", "call-not-accepted", "serve-resolved"],
+    },
+    Property {
+        id: "C14",
+        title: "A channel always answers and recovers when the peer comes back",
+        scenarios: vec![
+            Scenario { name: "N-connect-scripts", engine: "N", run: c14::run_script, quick: 6_000, thorough: 150_000, grid: c14::GRID, what: "fault scripts over {next connect fails, next connect succeeds, established connection dropped by the peer} x {lazy, eager}: all 726 scripts of length <= 5 enumerated first, then random scripts up to length 14; a call (sometimes two back-to-back) at every quiescent point; real Channel (Buffer, Reconnect, hyper/h2 client) and Server" },
+            Scenario { name: "N-midcall-death", engine: "N", run: c14::run_midcall, quick: 4_000, thorough: 100_000, grid: 0, what: "relaxed configuration: the first connection dies at a drawn byte offset (inside the HTTP/2 handshake, inside the request, inside the response) during a unary or server-streaming call; then calls at quiescent points must recover" },
+        ],
+        rule: "one run = one fault script (or one kill offset) x lazy/eager x network fragmentation; every run non-trivial; distinct = distinct hash of structural tape decisions and of the ordered network-event kinds; the first 726 runs enumerate all scripts of length <= 5",
+        real_vs_stub: RVS_N.to_vec(),
+        assumptions: vec![
+            "calls are issued at quiescent points (1 virtual second after each fault), as the property states",
+            "connector failures must surface as UNAVAILABLE; failures that are not connector failures (connection dying mid-call, handshake cut) are judged with the relaxed oracle: definite result, no hang, no panic, recovery at the next quiescent call (two attempts allowed)",
+        ],
+        required_probes: vec!["eager-initial-failure", "established-connection-dropped", "connect-failure-reported-to-triggering-call", "script-completed", "connection-died-during-call", "recovered-after-midcall-death"],
     },
     Property {
         id: "C16",
